@@ -192,14 +192,14 @@ func stress(dir string, seed int64, runs, workers, ops int, table *enc.Table, tr
 			conc.Uninstall()
 			return // the engine is wedged; nothing further can be trusted in this process
 		}
-		finishRun(run, base, sched, ws, trace)
+		finishRun(run, base, sched, ws, trace, false)
 	}
 }
 
 // systematic: small scenarios (2-3 actors, 1-2 calls each) under the controlled scheduler; the interleavings at the
 // scheduling points are enumerated depth-first up to maxSched schedules per scenario.  Every run is recorded and
 // judged like a stress run (each call at its linearization point, publication chain, protocol events).
-func systematic(dir string, seed int64, maxSched, randomSched int, table *enc.Table, trace *util.NDJSON) (schedules int) {
+func systematic(dir string, seed int64, maxSched, randomSched int, faults bool, table *enc.Table, trace *util.NDJSON) (schedules int) {
 	type program func(w *conc.Worker, id int)
 	inc := func(w *conc.Worker, id int) {
 		w.Do(w.Env.Update("d.acc", false, d("_id", int32(1)), d("$inc", d("n", int32(1))), false, nil))
@@ -232,8 +232,69 @@ func systematic(dir string, seed int64, maxSched, randomSched int, table *enc.Ta
 	del := func(w *conc.Worker, id int) {
 		w.Do(w.Env.Delete("d.acc", false, d("_id", int32(1))))
 	}
+	// scenarios with shutdown, cancelled contexts, abandoned sessions and streams (C16): every schedule must finish,
+	// the writer slot must come back, after Close every call reports the closed engine
+	closeEngine := func(w *conc.Worker, id int) {
+		if w.Sched.Ctrl != nil {
+			w.Sched.Ctrl.Park("call")
+		}
+		w.Env.Engine.Close()
+	}
+	cancelled := func(w *conc.Worker, id int) {
+		ctx, cancel := context.WithCancel(w.Env.Ctx)
+		cancel()
+		plain := w.Env.Ctx
+		w.Env.Ctx = ctx
+		w.Do(w.Env.Update("d.acc", false, d("_id", int32(1)), d("$inc", d("n", int32(1))), false, nil))
+		w.Env.Ctx = plain
+	}
+	shortCtx := func(w *conc.Worker, id int) {
+		ctx, cancel := context.WithTimeout(w.Env.Ctx, 2*time.Millisecond)
+		defer cancel()
+		plain := w.Env.Ctx
+		w.Env.Ctx = ctx
+		w.Do(w.Env.Update("d.acc", false, d("_id", int32(2)), d("$inc", d("n", int32(1))), false, nil))
+		w.Env.Ctx = plain
+	}
+	abandon := func(w *conc.Worker, id int) {
+		if w.Sched.Ctrl != nil {
+			w.Sched.Ctrl.Park("call")
+		}
+		w.Env.Client.UseSession(w.Env.Ctx, func(sc lungo.ISessionContext) error {
+			if err := sc.StartTransaction(); err != nil {
+				return err
+			}
+			w.Env.Client.Database("d").Collection("acc").UpdateOne(sc, d("_id", int32(3)), d("$inc", d("n", int32(1))))
+			return nil // the session ends with the transaction open
+		})
+	}
+	watcher := func(w *conc.Worker, id int) {
+		if w.Sched.Ctrl != nil {
+			w.Sched.Ctrl.Park("call")
+		}
+		cs, err := w.Env.Client.Watch(w.Env.Ctx, bson.A{})
+		if err != nil {
+			return
+		}
+		cs.TryNext(w.Env.Ctx)
+		if w.Sched.Ctrl != nil {
+			w.Sched.Ctrl.Park("call")
+		}
+		cs.TryNext(w.Env.Ctx)
+		cs.Close(w.Env.Ctx)
+	}
+	closing := map[int]bool{}
 	scenarios := [][]program{{inc, inc}, {inc, fam, inc}, {txnCommit, inc}, {txnCommit, txnCommit}, {txnAbort, inc}, {txnNoop, fam}, {uniq, uniq}, {txnCommit, read}, {twoWrites, twoWrites},
 		{del, inc}, {txnCommit, del}, {txnAbort, txnCommit, inc}}
+	if faults {
+		scenarios = [][]program{{closeEngine, inc}, {closeEngine, txnCommit}, {closeEngine, inc, fam}, {closeEngine, closeEngine, inc}, {cancelled, inc}, {shortCtx, txnCommit}, {abandon, inc},
+			{abandon, abandon}, {watcher, inc}, {watcher, closeEngine, inc}, {abandon, closeEngine}, {cancelled, txnAbort, inc}}
+		for i, sc := range scenarios {
+			for range sc {
+			}
+			closing[i] = i <= 3 || i == 9 || i == 10
+		}
+	}
 	run := 0
 	for si, sc := range scenarios {
 		var prefix []int
@@ -291,7 +352,7 @@ func systematic(dir string, seed int64, maxSched, randomSched int, table *enc.Ta
 				return schedules
 			}
 			schedules++
-			finishRun(base.Hist, base, sched, ws, trace)
+			finishRun(base.Hist, base, sched, ws, trace, closing[si])
 			if ctrl.Rand == nil {
 				prefix = conc.Next(ctrl.Used, ctrl.Alts)
 				if prefix == nil {
@@ -305,13 +366,13 @@ func systematic(dir string, seed int64, maxSched, randomSched int, table *enc.Ta
 
 // finishRun: after the workers have returned - publication chain, the records of every call at its linearization
 // point, the protocol events.
-func finishRun(run int, base *dbt.Env, sched *conc.Sched, ws []*conc.Worker, trace *util.NDJSON) {
+func finishRun(run int, base *dbt.Env, sched *conc.Sched, ws []*conc.Worker, trace *util.NDJSON, closed bool) {
 	conc.Uninstall()
 	if n := sched.Stale; n > 0 {
 		finding("serial", "a writer published on top of a catalog that was not the base of its transaction (lost update)", V{"run": run, "count": n})
 	}
 	final := base.Engine.Catalog()
-	probe(base.Client, false, "after a stress run", V{"run": run})
+	probe(base.Client, closed, "after a run", V{"run": run})
 	// write the records: publishes in version order, each validated at its linearization point
 	cache := dbt.NewObsCache(base)
 	type pub struct {
@@ -390,7 +451,7 @@ func finishRun(run int, base *dbt.Env, sched *conc.Sched, ws []*conc.Worker, tra
 			finding("serial", "the published catalogs do not form one chain ending in the current catalog", V{"run": run, "chain": n, "commits": len(pubs)})
 		}
 	}
-	trace.Write(V{"fn": "proto", "hist": run, "events": sched.ProtoEvents(), "quiescent": true})
+	trace.Write(V{"fn": "proto", "hist": run, "events": sched.ProtoEvents(), "quiescent": !closed})
 	base.Close()
 }
 
@@ -767,7 +828,10 @@ func main() {
 	case "guided":
 		guided(dir, seed, table, trace)
 	case "systematic":
-		n := systematic(dir, seed, arg(4, 40), arg(5, 40), table, trace)
+		n := systematic(dir, seed, arg(4, 40), arg(5, 40), false, table, trace)
+		out.Encode(V{"kind": "schedules", "n": n})
+	case "sysfaults":
+		n := systematic(dir, seed, arg(4, 40), arg(5, 40), true, table, trace)
 		out.Encode(V{"kind": "schedules", "n": n})
 	default:
 		util.Die("unknown mode")
